@@ -4,6 +4,7 @@ import (
 	"encoding/json"
 	"fmt"
 	"os"
+	"regexp"
 	"sort"
 	"strconv"
 	"testing"
@@ -27,6 +28,7 @@ type WalkResult struct {
 	ClassesAll  int            `json:"classes_in_graph"`
 	Violations  []Violation    `json:"violations"`
 	Abandoned   []Violation    `json:"abandoned"` // divergences that belong to other properties
+	Known       map[string]int `json:"known"`     // known findings met (by id)
 	Samples     []any          `json:"samples"`
 	WallS       float64        `json:"wall_s"`
 }
@@ -54,6 +56,61 @@ func envInt(k string, def int64) int64 {
 // walkPath replays one path on a fresh system.  Returns the index of the first diverging step
 // (or -1) with its mismatches.
 func walkPath(t *testing.T, g *Graph, seed int64, path []Edge) (int, []Mismatch, any, any, int) {
+	return walkPathK(t, g, seed, path, nil)
+}
+
+// knownFinding is one entry of /verif/known_findings.json with status "known".
+type knownFinding struct {
+	ID        string `json:"id"`
+	Property  string `json:"property"`
+	Status    string `json:"status"`
+	Resync    bool   `json:"resync"` // the harness system re-aligns itself with the spec state, the path can go on
+	Signature struct {
+		AllOf []string `json:"all_of"`
+	} `json:"signature"`
+}
+
+func loadKnown(prop string) []knownFinding {
+	b, err := os.ReadFile(os.Getenv("VERIF_KNOWN"))
+	if err != nil {
+		return nil
+	}
+	var f struct {
+		Findings []knownFinding `json:"findings"`
+	}
+	if json.Unmarshal(b, &f) != nil {
+		return nil
+	}
+	var out []knownFinding
+	for _, k := range f.Findings {
+		if k.Status == "known" && k.Property == prop && k.Resync {
+			out = append(out, k)
+		}
+	}
+
+	return out
+}
+
+func matchKnown(ks []knownFinding, mm []Mismatch, a map[string]any) string {
+	text := canon(map[string]any{"detail": mm, "action": a})
+	for _, k := range ks {
+		all := len(k.Signature.AllOf) > 0
+		for _, pat := range k.Signature.AllOf {
+			if ok, _ := regexp.MatchString(pat, text); !ok {
+				all = false
+			}
+		}
+		if all {
+			return k.ID
+		}
+	}
+
+	return ""
+}
+
+var knownHits = map[string]int{}
+
+func walkPathK(t *testing.T, g *Graph, seed int64, path []Edge, known []knownFinding) (int, []Mismatch, any, any, int) {
 	t.Helper()
 	step := -1
 	var mm []Mismatch
@@ -77,6 +134,11 @@ func walkPath(t *testing.T, g *Graph, seed int64, path []Edge) (int, []Mismatch,
 			}
 			steps++
 			if ms := sys.Check(e, obs); len(ms) > 0 {
+				if id := matchKnown(known, ms, e.A); id != "" {
+					knownHits[id]++ // a listed finding whose effect the harness has undone: go on
+
+					continue
+				}
 				step, mm, exp, got = i, ms, e.O, obs
 
 				return
@@ -120,6 +182,7 @@ func TestWalk(t *testing.T) {
 		all[e.Cls] = true
 	}
 	res.ClassesAll = len(all)
+	known := loadKnown(prop)
 	want := g.Want(seed, frac, int(envInt("VERIF_PERCLASS", 3)))
 	if os.Getenv("VERIF_MODE") == "traces" {
 		// the file holds behaviours printed by `tlc -simulate`: consecutive edges chain; a new
@@ -154,7 +217,7 @@ rounds:
 			for i, ei := range p {
 				es[i] = g.Edges[ei]
 			}
-			step, mm, exp, got, steps := walkPath(t, g, seed, es)
+			step, mm, exp, got, steps := walkPathK(t, g, seed, es, known)
 			res.Paths++
 			res.Steps += steps
 			upto := len(p)
@@ -211,6 +274,7 @@ rounds:
 			}
 		}
 	}
+	res.Known = knownHits
 	res.EdgesDist = len(walked)
 	res.WallS = time.Since(start).Seconds()
 	if out := os.Getenv("VERIF_OUT"); out != "" {
